@@ -247,4 +247,96 @@ theorem write_touches_four_index_blocks (s : S) (ino : Ino) (bn n : Nat) (h : WF
         simp only [NDIRECT, NBLKBLK] at *
         omega
 
+
+/-! ### how much a mapping can take from the allocator -/
+
+theorem alloc_len (s : S) : s.alloc.2.allocs.length ≤ s.allocs.length ∧ s.allocs.length ≤ s.alloc.2.allocs.length + 1 := by
+  unfold S.alloc
+  cases h : s.allocs with
+  | nil => simp [h]
+  | cons a r => simp [h]
+
+theorem indbmap_allocs (l : Nat) : ∀ (s : S) (root off : Nat),
+    (indbmap s root l off).1.allocs.length ≤ s.allocs.length ∧
+    s.allocs.length ≤ (indbmap s root l off).1.allocs.length + (l + 1) := by
+  induction l with
+  | zero =>
+    intro s root off
+    rw [indbmap0]
+    split
+    · exact alloc_len s
+    · exact ⟨Nat.le_refl _, Nat.le_add_right _ _⟩
+  | succ l ih =>
+    intro s root off
+    unfold indbmap
+    by_cases hr : root = 0
+    · simp only [hr, if_true]
+      have ha := alloc_len s
+      generalize hres : s.alloc = res at ha
+      obtain ⟨a, s1⟩ := res
+      simp only at ha ⊢
+      by_cases ha0 : a = 0
+      · simp only [ha0, if_true]; omega
+      · simp only [ha0, if_false]
+        have := ih s1 (s1.st a (off / pow l)) (off % pow l)
+        generalize hr2 : indbmap s1 (s1.st a (off / pow l)) l (off % pow l) = r2 at this
+        obtain ⟨s2, b, nn⟩ := r2
+        simp only at this ⊢
+        split <;> (try simp only) <;> omega
+    · simp only [hr, if_false]
+      have := ih s (s.st root (off / pow l)) (off % pow l)
+      generalize hr2 : indbmap s (s.st root (off / pow l)) l (off % pow l) = r2 at this
+      obtain ⟨s2, b, nn⟩ := r2
+      simp only at this ⊢
+      split <;> (try simp only) <;> omega
+
+/-- ONE MAPPING TAKES AT MOST THREE BLOCKS FROM THE ALLOCATOR (a data block and at most two index
+    blocks), and never gives any back -/
+theorem bmap_allocs_at_most_three (s : S) (blks : List Nat) (bn : Nat) :
+    (bmap s blks bn).1.allocs.length ≤ s.allocs.length ∧
+    s.allocs.length ≤ (bmap s blks bn).1.allocs.length + 3 := by
+  unfold bmap
+  by_cases h1 : bn < NDIRECT
+  · simp only [h1, if_true]
+    split
+    · have := alloc_len s
+      generalize s.alloc = res at this
+      obtain ⟨b, s'⟩ := res
+      simp only at this ⊢
+      omega
+    · exact ⟨Nat.le_refl _, Nat.le_add_right _ _⟩
+  · simp only [h1, if_false]
+    by_cases h2 : bn - NDIRECT < NBLKBLK
+    · simp only [h2, if_true]
+      have := indbmap_allocs 1 s (blks.getD INDIRECT 0) (bn - NDIRECT)
+      generalize indbmap s (blks.getD INDIRECT 0) 1 (bn - NDIRECT) = res at this
+      obtain ⟨s', b, r⟩ := res
+      simp only at this ⊢
+      omega
+    · simp only [h2, if_false]
+      have := indbmap_allocs 2 s (blks.getD DINDIRECT 0) (bn - NDIRECT - NBLKBLK)
+      generalize indbmap s (blks.getD DINDIRECT 0) 2 (bn - NDIRECT - NBLKBLK) = res at this
+      obtain ⟨s', b, r⟩ := res
+      simp only at this ⊢
+      omega
+
+/-- a WRITE of `n` file blocks takes at most `3 n` blocks from the allocator -/
+theorem writeBlocks_allocs (bn n : Nat) : ∀ (s : S) (ino : Ino) (cnt : Nat),
+    (writeBlocks s ino bn n cnt).1.allocs.length ≤ s.allocs.length ∧
+    s.allocs.length ≤ (writeBlocks s ino bn n cnt).1.allocs.length + 3 * n := by
+  induction n with
+  | zero => intro s ino cnt; simp [writeBlocks]
+  | succ n ih =>
+    intro s ino cnt
+    have hb := bmap_allocs_at_most_three s ino.blks (bn + cnt)
+    unfold writeBlocks
+    generalize bmap s ino.blks (bn + cnt) = res at hb
+    obtain ⟨s', blks', blkno, fl⟩ := res
+    simp only at hb ⊢
+    by_cases hz : blkno = 0
+    · simp only [hz, if_true]; omega
+    · simp only [hz, if_false]
+      have := ih s' { ino with blks := blks' } (cnt + 1)
+      omega
+
 end GoNfsd.Model.BlockMap
